@@ -34,6 +34,8 @@ def _bounds(draw, integer):
     if shape == "none":
         return None, None
     lo = draw(st.integers(-6, 4)) if integer else draw(st.sampled_from([-6, -2.5, 0, 0.0, 1, 1.5, 4]))
+    if integer and draw(st.integers(0, 3)) == 0:
+        lo = lo + 0.5                      # an Integer may be declared with fractional limits
     width = draw(st.integers(3, 8)) if integer else draw(st.sampled_from([3, 4.5, 8]))
     hi = lo + width
     b = (lo if shape in ("lo", "both") else None, hi if shape in ("hi", "both") else None)
@@ -48,8 +50,13 @@ def _in_bounds_value(draw, b, inc, integer):
     lo, hi = b
     inc_lo, inc_hi = inc
     if integer:
-        a = (lo if inc_lo else lo + 1) if lo is not None else (hi - 40)
-        z = (hi if inc_hi else hi - 1) if hi is not None else (lo + 40)
+        def first_at_or_above(b, inclusive):
+            return int(b) if (b == int(b) and inclusive) else math.floor(b) + 1
+
+        def last_at_or_below(b, inclusive):
+            return int(b) if (b == int(b) and inclusive) else math.ceil(b) - 1
+        a = first_at_or_above(lo, inc_lo) if lo is not None else last_at_or_below(hi, inc_hi) - 40
+        z = last_at_or_below(hi, inc_hi) if hi is not None else first_at_or_above(lo, inc_lo) + 40
         return draw(st.one_of(st.integers(a, z), st.sampled_from([a, z])))
     cands = []
     if lo is not None:
@@ -74,6 +81,23 @@ def _date(draw):
     return draw(st.dates(min_value=dt.date(1, 1, 1), max_value=dt.date(9999, 12, 31)))
 
 
+import re as _re   # noqa: E402
+
+# name -> (pattern, flags, values that match it (String uses re.match))
+_REGEXES = {
+    "ab_text": ("^[ab]*$", None, ["", "a", "abba", "b"]),
+    "prefix_text": ("a.", None, ["ab", "a b", "a\"c"]),
+    "icase_compiled": (r"[a-z]+\d*$", _re.IGNORECASE, ["ABC", "abc", "Ab12", "z"]),
+    "dotall_compiled": (r"a.b$", _re.DOTALL, ["a\nb", "axb"]),
+    "verbose_compiled": (r"a  b  # two letters", _re.VERBOSE, ["ab", "abc"]),
+}
+
+
+def regex_of(key):
+    pat, flags, _vals = _REGEXES[key]
+    return pat if flags is None else _re.compile(pat, flags)
+
+
 TYPES = ["Integer", "Number", "String", "Boolean", "Tuple", "NumericTuple", "XYCoordinates", "Range", "Date",
          "CalendarDate", "DateRange", "CalendarDateRange", "List", "Dict", "Selector", "ListSelector", "Color",
          "ClassSelector"]
@@ -92,6 +116,8 @@ def param_spec(draw, types=TYPES, for_schema=False):
         if t in ("Integer", "Number"):
             return _in_bounds_value(draw, cfg.get("bounds"), cfg.get("inclusive_bounds", (True, True)), t == "Integer")
         if t == "String":
+            if cfg.get("regex") is not None:
+                return draw(st.sampled_from(_REGEXES[cfg["regex"]][2]))
             return draw(_text)
         if t == "Boolean":
             return draw(st.booleans())
@@ -152,6 +178,8 @@ def param_spec(draw, types=TYPES, for_schema=False):
         if t != "Range" and draw(st.integers(0, 3)) == 0:
             # so is the step: values need not be multiples of it
             cfg["step"] = draw(st.sampled_from([2, 3, 7] if t == "Integer" else [2, 3, 0.25, 7]))
+    elif t == "String" and draw(st.integers(0, 2)) == 0:
+        cfg["regex"] = draw(st.sampled_from(sorted(_REGEXES)))        # a key of _REGEXES (text or compiled with flags)
     elif t in ("Tuple", "NumericTuple"):
         cfg["length"] = draw(st.integers(0 if t == "Tuple" else 1, 3))
     elif t == "List":
@@ -195,6 +223,8 @@ def build_class(specs, name="K"):
         if t in ("Tuple", "NumericTuple") and "length" in kw and d is not None and len(d) == 0:
             pass
         appended = kw.pop("objects_appended", [])
+        if "regex" in kw and t == "String":
+            kw["regex"] = regex_of(kw["regex"])
         if kw.pop("objects_style", None) == "dict":
             kw["objects"] = {f"label{j}": o for j, o in enumerate(kw["objects"])}
         # the default is installed after the appended objects exist (it may be one of them)
